@@ -11,7 +11,7 @@ EXPLANATION = ('Static rules on the two-input operators: M0 both inputs are wire
                'slot empty); M2 merge/combine_latest/zip complete downstream only on the second completion (first completion only sets the '
                'flag); M3 take_until completes the main slot on the notifier\'s first item and ignores the notifier\'s own terminal, '
                'skip_until opens the gate on a notifier item only; M4 sample and buffer move the gathered data out before emitting it '
-               '(no duplication on the next tick); M6 the source side of sample never emits (values are released by notifier events only); M5 zip\'s pending queues are first-in-first-out (necessary for pairing the i-th items). Does not decide pairing, latest-value selection or per-interleaving outputs.')
+               '(no duplication on the next tick); M6 the source side of sample never emits (values are released by notifier events only); M5 zip\'s pending queues are first-in-first-out (necessary for pairing the i-th items); M7 latest-value flow, by provenance dataflow: combine_latest stores the incoming item first and combines it with the other side\'s stored value; with_latest_from pairs the incoming item with the stored secondary value and its secondary observer only stores; sample stores on the source side and releases+empties on a tick; merge forwards the incoming item unchanged. Does not decide pairing, latest-value selection or per-interleaving outputs.')
 ASSUMPTIONS = ['the interleaving of the two inputs is arbitrary; only per-event handlers are analysed']
 
 SHARED = ['MutRc<ops::merge::MergeObserver>', 'MutArc<ops::merge::MergeObserver>',
@@ -26,11 +26,12 @@ CONTROLS = [
     'M2|<rc::MutRc<verif_controls::PeekShared<O>> as Observer>::complete',
     'M4|<verif_controls::CloneTick<O, V> as Observer>::next',
     'M5|src/verif_controls.rs field `stack`',
+    'M7|<rc::MutRc<verif_controls::StaleCombine<O, A, B, F>> as Observer>::next',
 ]
 
 
 def check(cx):
-    return m0(cx) + m1(cx) + m2(cx) + m3(cx) + m4(cx) + m5(cx) + m6(cx)
+    return m0(cx) + m1(cx) + m2(cx) + m3(cx) + m4(cx) + m5(cx) + m6(cx) + m7(cx)
 
 
 def m0(cx):
@@ -245,4 +246,127 @@ def m6(cx):
                                fn['span'], bad[1] if bad else None))
     if n < 3:
         res.append(Finding(ID, 'M6', 'floor', False, 'sample source observer not found'))
+    return res
+
+
+def m7(cx):
+    """which values are combined (provenance dataflow, see prov.py)"""
+    from .. import prov as P
+    F = cx.facts
+    res = []
+    seen = set()
+    item = ('item', ())
+    is_item = lambda v: v[0] == 'item'
+
+    def rows(tag, im):
+        if 'combine_latest::CombineLatestObserver' in tag or (cx.control and 'StaleCombine' in tag):
+            fn = cx.method(im, 'next')
+            sums, _ = P.summaries(cx.graph(fn['key']))
+            bad = None
+            for sm, key in sums:
+                stored = [(k[1:], v) for k, v in sm['store'].items() if k[0] == 'S' and v[0] == 'some' and is_item(v[1])]
+                if len(stored) != 1:
+                    if all(P.decided(v) for k, v in sm['store'].items() if k[0] == 'S'):
+                        bad = bad or 'combine_latest: a path of next() does not store the incoming item as the latest value of its side'
+                    continue
+                own = stored[0][0]
+                if sm['ucalls']:
+                    argv = sm['ucalls'][0][1]
+                    if argv[0] == 'tuple' and len(argv[1]) == 2:
+                        fresh = [x for x in argv[1] if is_item(x)]
+                        olds = [x for x in argv[1] if x[0] == 'old']
+                        if len(fresh) != 1 and all(P.decided(x) for x in argv[1]):
+                            bad = 'combine_latest: the combinator is not applied to the item that just arrived (a stale value of the same side is combined)'
+                        for o in olds:
+                            if o[1][:len(own)] == own:
+                                bad = 'combine_latest: the combinator is applied to the previous value of the side that just emitted'
+                            c = P.cond_of(sm, lambda t, o=o: t[0] == 'discr' and t[1][0] == 'old' and o[1][:len(t[1][1])] == t[1][1])
+                            if c == 0:
+                                bad = 'combine_latest: combines although the other side has no value yet'
+                    ne = P.emits(sm, 'next')
+                    if len(ne) != 1 or (P.decided(ne[0][2]) and ne[0][2] != ('ucall', 0)):
+                        bad = 'combine_latest: the result of the combinator must be forwarded exactly once'
+                elif P.emits(sm, 'next'):
+                    bad = 'combine_latest: emits without applying the combinator'
+            return [(fn, bad, 'stores the item, then combines it with the other side\'s stored value')]
+        if tag == 'ops::with_latest_from::AObserver':
+            fn = cx.method(im, 'next')
+            sums, _ = P.summaries(cx.graph(fn['key']))
+            bad = None
+            for sm, key in sums:
+                ne = P.emits(sm, 'next')
+                c = [val for term, val in sm['conds'] if term[0] == 'discr' and term[1][0] == 'old']
+                if ne:
+                    v = ne[0][2]
+                    if len(ne) != 1:
+                        bad = 'with_latest_from: more than one pair per primary item'
+                    elif v[0] == 'tuple' and len(v[1]) == 2 and all(P.decided(x) for x in v[1]):
+                        if not any(is_item(x) for x in v[1]) or not any(x[0] == 'old' for x in v[1]):
+                            bad = 'with_latest_from: a pair must consist of the incoming item and the stored secondary value'
+                    if 0 in c:
+                        bad = 'with_latest_from: a pair is emitted although no secondary value is stored'
+                elif c and all(x == 1 for x in c):
+                    bad = 'with_latest_from: no pair is emitted although a secondary value is stored'
+            return [(fn, bad, 'pairs the incoming item with the stored secondary value iff there is one')]
+        if tag in ('ops::with_latest_from::BObserver', 'ops::sample::SourceObserver'):
+            fn = cx.method(im, 'next')
+            sums, _ = P.summaries(cx.graph(fn['key']))
+            bad = None
+            for sm, key in sums:
+                if P.emits(sm):
+                    bad = 'the storing side must not emit'
+                stored = [v for k, v in sm['store'].items() if k[0] == 'S']
+                if not any(v == ('some', item) for v in stored) and all(P.decided(v) for v in stored):
+                    bad = 'a path of next() does not store the incoming item as the latest value'
+            return [(fn, bad, 'stores the incoming item as the latest value, emits nothing')]
+        if tag == 'ops::sample::SampleObserver':
+            fn = cx.method(im, 'next')
+            sums, _ = P.summaries(cx.graph(fn['key']))
+            bad = None
+            for sm, key in sums:
+                ne = P.emits(sm, 'next')
+                for e in ne:
+                    v = e[2]
+                    if P.decided(v) and v[0] != 'old':
+                        bad = 'sample: a tick must release the stored value'
+                    if v[0] == 'old' and 'as Some' in v[1]:
+                        cell = v[1][:v[1].index('as Some')]
+                        now = P.cur(sm, cell)
+                        if P.decided(now) and now != ('none',):
+                            bad = 'sample: the released value stays in the cell (the next tick would release it again)'
+                c = [val for term, val in sm['conds'] if term[0] == 'discr' and term[1][0] == 'old']
+                if not ne and c and all(x == 1 for x in c):
+                    bad = 'sample: a tick releases nothing although a value is stored'
+                if len(ne) > 1:
+                    bad = 'sample: a tick releases more than one value'
+            return [(fn, bad, 'a tick releases the stored value and empties the cell')]
+        if 'merge::MergeObserver' in tag:
+            fn = cx.method(im, 'next')
+            sums, _ = P.summaries(cx.graph(fn['key']))
+            bad = None
+            for sm, key in sums:
+                ne = P.emits(sm, 'next')
+                if len(ne) > 1 or any(P.decided(e[2]) and e[2] != item for e in ne):
+                    bad = 'merge: every incoming item must be forwarded once, unchanged'
+                c = [val for term, val in sm['conds'] if term[0] == 'discr']
+                if not ne and c and all(x == 1 for x in c):
+                    bad = 'merge: an item is dropped although the downstream is still there'
+            return [(fn, bad, 'forwards the incoming item unchanged')]
+        return None
+    want = ['combine_latest::CombineLatestObserver', 'ops::with_latest_from::AObserver', 'ops::with_latest_from::BObserver', 'ops::sample::SourceObserver',
+            'ops::sample::SampleObserver', 'merge::MergeObserver']
+    for im in cx.observer_impls():
+        tag = roles.impl_tag(cx, im)
+        if cx.control != ('verif_controls' in tag):
+            continue
+        r = rows(tag, im)
+        if r is None:
+            continue
+        seen.add(tag)
+        for fn, bad, good in r:
+            res.append(Finding(ID, 'M7', cx.label(fn), not bad, bad or good, fn['span']))
+    if not cx.control:
+        for w in want:
+            if not any(w in t for t in seen):
+                res.append(Finding(ID, 'M7', 'table:' + w, False, 'operator not found (fail closed)'))
     return res
